@@ -62,7 +62,23 @@ ASSUMPTIONS = [
     "the four base encoding tables are data (latin_enc.ENCODING); unknown base encoding names mean StandardEncoding",
     "widths are exact rationals; IEEE rounding is not modelled",
 ]
-STATEMENT_STATUS: Dict[str, str] = {}
+STATEMENT_STATUS: Dict[str, str] = {
+    "agl_grammar": "proved: name2unicode (model) = AGL section 2 for every glyph list without empty values and every "
+                   "judged name (all names except lower-case uni/u hex components and partially unknown components)",
+    "agl_all_names_statement": "false for the model and the code; counter-examples proved: agl_lowercase_cex, "
+                               "agl_partial_components_cex, agl_all_names_statement_false",
+    "enc_overlay": "proved: get_encoding = last Differences assignment to the code, else base table (all tables, all arrays)",
+    "enc_text": "proved: encoding as Unicode values = AGL value of the assigned / base-table glyph name (TablesOK)",
+    "builtin_text": "proved: built-in encoding of a Type 1 header = AGL value of the last put for the code",
+    "encoding_text": "proved: cid2unicode of the constructed font = specification of the font's encoding",
+    "C06_unicode_precedence": "proved: ToUnicode entry > encoding > undefined, all codes, all font dictionaries of the "
+                              "modelled shape (judged cells)",
+    "C06_text_precedence": "proved: LTChar text = ToUnicode entry, else AGL value, else (cid:N) (judged cells)",
+    "widths_index": "proved: width dict lookup = Widths[code - FirstChar]",
+    "C06_width_precedence": "proved: advance = Widths entry, else standard-14 metric of the character, else "
+                            "MissingWidth, times 1/1000 or FontMatrix[0] (judged cells)",
+    "type3_scale": "proved: Type3 advance = (Widths entry or MissingWidth) x FontMatrix[0], no hypothesis on the text",
+}
 
 CLASSIFIERS = {
     # no open findings at present: every defect found was repaired in the repo worktree
@@ -613,6 +629,10 @@ NAME_KINDS = ["list", "list", "list", "uni1", "uni2", "uni3", "uni_lower", "uni_
               "ulist", "nonascii", "badutf8"]
 
 
+GRAMMAR_KINDS = {"list", "uni1", "uni2", "uni3", "u4", "u5", "u6", "ulist", "suffix", "components2", "components3",
+                 "components4"}
+
+
 def gen_component(rng, kind: Optional[str] = None) -> Tuple[str, str]:
     d = data()
     k = kind or rng.choice(NAME_KINDS)
@@ -648,7 +668,7 @@ def gen_component(rng, kind: Optional[str] = None) -> Tuple[str, str]:
     if k == "u5":
         return "u" + "%05X" % rng.randint(0x10000, 0xFFFFF), k
     if k == "u6":
-        return "u" + "%06X" % rng.choice([rng.randint(0x100000, 0x10FFFF), 0x10FFFF, rng.randint(0, 0xFFFF)]), k
+        return "u" + rng.choice(["%06X" % rng.randint(0x100000, 0x10FFFF), "10FFFF", "00" + gen_scalar_hex4(rng)]), k
     if k == "u_short":
         return "u" + gen_hex(rng, rng.randint(0, 3)), k
     if k == "u_long":
@@ -987,6 +1007,9 @@ def check_names(ctx: C.Ctx, names: List[Tuple[Any, List[str]]], label: str = "")
         # (prop) implementation against the specification
         exp = reply_of_spec_text(spec)
         got = impl if impl != "E key" else "N"
+        if not dom and kinds and all(k in GRAMMAR_KINDS for k in kinds):
+            # a name built only from the classes of the property's grammar must be inside the judged domain
+            ctx.disagree("domain", {"name": name_arg(tok), "kinds": kinds}, "judged", "outside-domain")
         if dom:
             ctx.branch("name:judged")
             if got != exp:
@@ -1018,7 +1041,7 @@ def run_names(ctx: C.Ctx) -> None:
             if kk == "badutf8":
                 continue
             names.append((("s", c), [kk]))
-    for _ in range(ctx.n(1500, 60000)):
+    for _ in range(ctx.n(6000, 150000)):
         names.append(gen_name(rng))
     # the whole glyph list (list names are the bulk of real fonts)
     step = 1 if ctx.tier == "thorough" else 7
@@ -1111,7 +1134,7 @@ def run_encodings(ctx: C.Ctx) -> None:
     cases: List[Tuple[str, List[Any], List[str]]] = []
     for e in ENC_NAMES + ["Foo"]:
         cases.append((e, [], ["enc:exhaustive-base"]))      # all 256 codes of every base table, every run
-    for _ in range(ctx.n(250, 8000)):
+    for _ in range(ctx.n(800, 20000)):
         diff, kinds = gen_diff(rng)
         cases.append((rng.choice(ENC_CHOICES), diff, kinds))
     check_encodings(ctx, cases)
@@ -1297,7 +1320,7 @@ def run_fonts(ctx: C.Ctx) -> None:
                   "tu": None, "fc": None, "widths": None, "desc": None,
                   "fm": ["1/1000", "0", "0", "1/1000", "0", "0"] if sub == "Type3" else None}
             fonts.append((fs, ["font:plain"]))
-    for _ in range(ctx.n(260, 12000)):
+    for _ in range(ctx.n(900, 25000)):
         fonts.append(gen_font(rng))
     check_fonts(ctx, fonts)
 
@@ -1305,7 +1328,7 @@ def run_fonts(ctx: C.Ctx) -> None:
 def run_utf16(ctx: C.Ctx) -> None:
     rng = ctx.rng
     lines, mine = [], []
-    for _ in range(ctx.n(300, 20000)):
+    for _ in range(ctx.n(1000, 40000)):
         n = rng.choice([0, 1, 2, 3, 4, 5, 6, 8])
         b = bytes(rng.choice([0xD8, 0xDB, 0xDC, 0xDF, 0x00, 0x41, 0xFF, rng.randint(0, 255)]) for _ in range(n))
         ref = b.decode("utf-16-be", "ignore")
